@@ -13,6 +13,7 @@
       <<"intfloor", e>>                       astype(int).astype(float) of a scalar: an integer intermediate (zero tangent)
       <<"cond2mul", e, q, f1, f2, g1, g2>>    (a, b) = lax.cond(e > q, (f1, f2), (g1, g2)); a * b    (a cond with two outputs)
       <<"switch3", e, f0, f1, f2>>            lax.switch(clip(int(e), 0, 2), [f0, f1, f2])
+      <<"condc", e, q, f, q2>>                lax.cond(e > q, f, lambda: q2)   (a branch with a literal output, code after the cond)
    Contract = Impl here: dual-number semantics (the standard JVP rules) evaluated exactly in rationals; the binding compares
    the real jvp_estimate / grad_estimate / estimate with these values (and with jax.jvp / jax.grad, the oracle the property names). *)
 EXTENDS Rational, Sequences, SequencesExt, FiniteSets, TLC, TLCExt, Json, IOUtils
@@ -69,6 +70,8 @@ Ev(e, X) ==      \* X: dual of the argument (for the pytree argument: [a |-> dua
                              a == IF RLess(e[3], c.p.d) THEN Ev(e[4], X) ELSE Ev(e[6], X)
                              b == IF RLess(e[3], c.p.d) THEN Ev(e[5], X) ELSE Ev(e[7], X)
                          IN [p |-> VMul(a.p, b.p), t |-> VAdd(VMul(a.t, b.p), VMul(a.p, b.t))]
+    (* a cond one of whose branches returns a CONSTANT (a literal output, independent of the operands): cond(e > q, f, q2) *)
+    [] k = "condc" -> LET c == Ev(e[2], X) IN IF RLess(e[3], c.p.d) THEN Ev(e[4], X) ELSE [p |-> S(e[5]), t |-> S(R(0))]
     (* lax.switch over three branches, index = clip(astype(int)(e), 0, 2) *)
     [] k = "switch3" -> LET c == Trunc(Ev(e[2], X).p.d)
                             i == IF RLess(c, R(1)) THEN 0 ELSE IF RLess(c, R(2)) THEN 1 ELSE 2
@@ -94,6 +97,8 @@ Corpus == <<
   [n |-> "s_cond",   ty |-> "s", e |-> <<"cond", Xs, Q(0, 1), <<"mul", Xs, Xs>>, <<"neg", Xs>>>>],
   [n |-> "s_int",    ty |-> "s", e |-> <<"mul", Xs, <<"intfloor", <<"add", Xs, C(2, 1)>>>>>>],
   [n |-> "s_cond2",  ty |-> "s", e |-> <<"add", <<"cond2mul", Xs, Q(0, 1), <<"sq", Xs>>, <<"mul", C(3, 1), Xs>>, <<"neg", Xs>>, <<"pow3", Xs>>>>, Xs>>],
+  [n |-> "s_condc",  ty |-> "s", e |-> <<"add", <<"mul", <<"condc", Xs, Q(0, 1), <<"sq", Xs>>, Q(3, 2)>>, Xs>>, Xs>>],
+  [n |-> "v_condc",  ty |-> "v", e |-> <<"mul", <<"condc", <<"idx", Xs, 1>>, Q(0, 1), <<"dot", Xs, Xs>>, Q(2, 1)>>, <<"sum", Xs>>>>],
   [n |-> "s_switch", ty |-> "s", e |-> <<"mul", <<"switch3", <<"add", Xs, C(1, 1)>>, <<"sq", Xs>>, <<"mul", C(2, 1), Xs>>, <<"pow3", Xs>>>>, Xs>>],
   [n |-> "s_clip",   ty |-> "s", e |-> <<"mul", <<"clip11", <<"mul", Xs, C(3, 4)>>>>, Xs>>],
   [n |-> "v_dynidx", ty |-> "v", e |-> <<"mul", <<"dynidx", Xs>>, <<"idx", Xs, 2>>>>],
